@@ -140,6 +140,16 @@ def r1_roles(idx, r):
               msg=f"a mapped value that is not None can leave paramSetter without being stored{' (`' + vname + '` is tested for truth: exact zeros are skipped)' if tr else ''}: "
                   "the destination keeps the stale value of an earlier mapping wherever the new value is 0")
 
+    # the getter: a list-like value counts as unset only when it is EMPTY - never because all its entries are zero
+    pg = idx.method(UM + ".ParamMapper", "paramGetter")
+    if pg is None:
+        raise AnchorMissing("ParamMapper.paramGetter")
+    valued = [c for c in ast.walk(pg.node) if isinstance(c, ast.Call) and dotted(c.func) in ("np.any", "any", "np.all", "all", "np.count_nonzero", "bool") and c.args and isinstance(c.args[0], ast.Name)]
+    in_tests = [c for c in valued if any(c in list(ast.walk(t.test)) for t in ast.walk(pg.node) if isinstance(t, (ast.If, ast.IfExp)))]
+    r.require(not in_tests, "getter:unset-means-empty", pg, node=in_tests[0] if in_tests else pg.node,
+              msg=f"`{norm(in_tests[0]) if in_tests else ''}` decides whether an array parameter is mapped by the VALUES it holds: an all-zero array (zero flux outside the fuel) is skipped "
+                  "and the destination keeps the stale value of an earlier mapping")
+
 
 def r1b_height_ratios(idx, r):
     sh = idx.method("armi.reactor.blocks.Block", "setHeight")
